@@ -1,5 +1,6 @@
 """Lague1 (AGUE variant 1 pseudo-header + decodeAGUE dispatcher sub-check: C19, C05, C06, C07, C01) configuration for ./check"""
 CONF = {
+    'coq_sample': 10,   # cases re-evaluated inside Coq by vm_compute against the extracted runner's output
     'interesting': ['truncated-prefix-of-valid', 'first-octet-every-value', 'registered-decoder', 'variant-0', 'variant-1', 'variant-2', 'empty',
                     'field-extreme', 'out-of-domain', 'roundtrip', 'dirty-buffer', 'no-fixlengths', 'odd-payload', 'error-residue', 'residue-after-error',
                     'decode-error', 'malformed', 'seed'],
